@@ -114,3 +114,18 @@ STACKED_REGISTRY.register_node_traverser(
     flatten_fn=lambda b: (tuple(b.items), None),
     unflatten_fn=lambda values, _: CustomBox(values),
     path_elements_fn=lambda b: tuple(daglish.Index(i) for i in range(len(b.items))))
+
+
+# An application registers its OWN named-tuple class in its registry as opaque (no children). The
+# class never occurs in the generated data: other named tuples are none of its business.
+import collections as _collections
+OpaqueRecord = _collections.namedtuple('OpaqueRecord', ['payload'])
+try:
+  STACKED_REGISTRY.register_node_traverser(
+      OpaqueRecord,
+      flatten_fn=lambda v: ((), tuple(v)),
+      unflatten_fn=lambda values, meta: OpaqueRecord(*meta),
+      path_elements_fn=lambda v: ())
+  OPAQUE_RECORD_REGISTERED = True
+except Exception:  # pylint: disable=broad-except
+  OPAQUE_RECORD_REGISTERED = False
